@@ -1862,11 +1862,12 @@ func specAllWritesOK(t0, m0, b0 int) bool {
 //@   requires C16.create.envelope: specConfEnvelope(up4) && specPortsOrdered(all.pdrs) && specQFIsValid(all.qers)
 //@   ensures C15.create.inv: specUP4Inv(up4, specAppCells(), specSessCells(), specCounterCells())
 //@   ensures C15.create.reject: err == nil ==> specAllWritesOK(old[int](glen("p4table")), old[int](glen("p4meter")), old[int](glen("p4batch")))
-//@   ensures C15.create.counters: err == nil ==> forall i int :: 0 <= i && i < len(all.pdrs) ==> int64(all.pdrs[i].ctrID) < specCounterCells() && old[bool](setHas(specCounterPoolOf(up4), uint64(all.pdrs[i].ctrID))) && !setHas(specCounterPoolOf(up4), uint64(all.pdrs[i].ctrID))
-//@   ensures C15.create.counters.distinct: err == nil ==> forall i int, j int :: 0 <= i && i < j && j < len(all.pdrs) ==> all.pdrs[i].ctrID != all.pdrs[j].ctrID
+//@   ensures C15.create.counters: err == nil ==> forall i int, v uint64 :: lo(all.pdrs) <= i && i < hi(all.pdrs) && v == uint64(at(all.pdrs, i).ctrID) ==> v < uint64(specCounterCells()) && old[bool](setHas(specCounterPoolOf(up4), v)) && !setHas(specCounterPoolOf(up4), v)
+//@   ensures C15.create.counters.distinct: err == nil ==> forall i int, j int :: lo(all.pdrs) <= i && i < j && j < hi(all.pdrs) ==> at(all.pdrs, i).ctrID != at(all.pdrs, j).ctrID
 //@   loop 1 invariant C15.create.l1.inv: specUP4Inv(up4, specAppCells(), specSessCells(), specCounterCells()) && len(all.pdrs) == len(updated.pdrs)
 //@   loop 1 invariant C15.create.l1.reject: specAllWritesOK(old[int](glen("p4table")), old[int](glen("p4meter")), old[int](glen("p4batch")))
-//@   loop 1 invariant C15.create.l1.counters: forall i int :: 0 <= i && i <= rangeidx ==> int64(all.pdrs[i].ctrID) < specCounterCells() && old[bool](setHas(specCounterPoolOf(up4), uint64(all.pdrs[i].ctrID))) && !setHas(specCounterPoolOf(up4), uint64(all.pdrs[i].ctrID))
-//@   loop 1 invariant C15.create.l1.distinct: forall i int, j int :: 0 <= i && i < j && j <= rangeidx ==> all.pdrs[i].ctrID != all.pdrs[j].ctrID
+//@   loop 1 invariant C15.create.l1.counters: forall i int, v uint64 :: lo(all.pdrs) <= i && i <= lo(all.pdrs)+rangeidx && v == uint64(at(all.pdrs, i).ctrID) ==> v < uint64(specCounterCells()) && old[bool](setHas(specCounterPoolOf(up4), v)) && !setHas(specCounterPoolOf(up4), v)
+//@   loop 1 invariant C15.create.l1.shrinks: forall v uint64 :: setHas(specCounterPoolOf(up4), v) ==> old[bool](setHas(specCounterPoolOf(up4), v))
+//@   loop 1 invariant C15.create.l1.distinct: forall i int, j int :: lo(all.pdrs) <= i && i < j && j <= lo(all.pdrs)+rangeidx ==> at(all.pdrs, i).ctrID != at(all.pdrs, j).ctrID
 //@   loop 1 invariant C16.create.l1.envelope: specPortsOrdered(all.pdrs) && specQFIsValid(all.qers) && specConfEnvelope(up4)
 //@   loop 2 invariant C15.create.l2.inv: up4.ueAddrToFSEID != nil && up4.fseidToUEAddr != nil
